@@ -74,7 +74,7 @@ def main(tier):
                     with open(outf, 'w') as f:
                         f.write('stale line of an earlier run\n' * r.choice([1, 50, 2000]))
             if cmd == 'list':
-                fmt_ = r.choice(LIST_FORMATS + ['xml'])
+                fmt_ = r.choice(LIST_FORMATS * 3 + ['xml', 'JSON', 'Txt'])      # format names are case sensitive in the library
                 exposure = r.random() < 0.3
                 focus = ''
                 if r.random() < 0.3 and W['workloads']:
@@ -88,7 +88,12 @@ def main(tier):
                     d2 = r.choice([d, d + '/', d + '/.'])      # a directory compared with itself (also when it cannot be analysed)
                     if r.random() < 0.3:
                         d = d2 = os.path.join(h.tmp, 'missing%d' % i)
-                fmt_ = r.choice(DIFF_FORMATS + ['json'])
+                elif r.random() < 0.2:
+                    # the second directory through a symbolic link, written with a trailing slash: both sides get the string as given
+                    lk = os.path.join(h.tmp, 'lnk%d' % i)
+                    os.symlink(d2, lk)
+                    d2 = lk + '/'
+                fmt_ = r.choice(DIFF_FORMATS * 3 + ['json', 'TXT', 'Dot'])
                 args = ['diff', '--dir1', d, '--dir2', d2, '-o', fmt_] + flags
                 lib = {'id': 'd', 'cmd': 'diff', 'dir': d, 'dir2': d2, 'format': fmt_, 'stop': stop, 'want_out': True}
             pr = subprocess.run([binp] + args, capture_output=True, text=True, timeout=300, cwd=h.tmp)
